@@ -32,6 +32,9 @@ import sys
 PROP_FILES = ['Props/C16.v']
 LEVEL = 'partial'
 
+import warnings
+warnings.simplefilter('ignore', RuntimeWarning)    # 'coroutine ... was never awaited' of tasks cancelled at the end of a case
+
 if not os.environ.get('C16_LOG'):      # C16_LOG=1: keep bumble's logging (debugging aid only)
     logging.disable(logging.CRITICAL)
 
@@ -187,7 +190,6 @@ class World:
                 raise Budget('second connection not established')
             self.aux_conns[1] = got[2]
             self.handle[2] = -1          # stack 2 never sees the connection under test
-            await prep_aux(self)
 
     def spawn(self, name, side, kind, coro):
         t = asyncio.ensure_future(coro)
@@ -558,6 +560,35 @@ async def prep_none(w):
     pass
 
 
+def _sbc_capabilities():
+    from bumble import a2dp, avdtp
+    I = a2dp.SbcMediaCodecInformation
+    return avdtp.MediaCodecCapabilities(
+        media_type=avdtp.MediaType.AUDIO, media_codec_type=a2dp.CodecType.SBC,
+        media_codec_information=I(
+            sampling_frequency=I.SamplingFrequency.SF_44100, channel_mode=I.ChannelMode.JOINT_STEREO,
+            block_length=I.BlockLength.BL_16, subbands=I.Subbands.S_8,
+            allocation_method=I.AllocationMethod.LOUDNESS, minimum_bitpool_value=2, maximum_bitpool_value=53))
+
+
+async def prep_avdtp_listener(w):
+    from bumble import avdtp
+    w.avdtp_listener = avdtp.Listener.for_device(w.devices[1])
+    w.avdtp_listener.on('connection', lambda server: server.add_sink(_sbc_capabilities()))
+
+
+async def prep_avdtp(w):
+    from bumble import avdtp
+    await prep_avdtp_listener(w)
+    w.avdtp = await w.wait(avdtp.Protocol.connect(w.conns[0]), 'avdtp connect')
+    await w.settle()
+
+
+async def _avdtp_connect(w):
+    from bumble import avdtp
+    w.avdtp = await avdtp.Protocol.connect(w.conns[0])
+
+
 def _pairing(w):
     from bumble.pairing import PairingConfig, PairingDelegate
     for d in w.devices:
@@ -567,6 +598,13 @@ def _pairing(w):
 
 async def prep_pair(w):
     _pairing(w)
+
+
+async def prep_paired(w):
+    # the link under test is already paired (its SMP session stays until the disconnection)
+    await prep_gatt(w)
+    _pairing(w)
+    await w.wait(w.conns[0].pair(), 'pair')
 
 
 async def prep_pair_prompt(w):
@@ -628,6 +666,7 @@ PROCEDURES = {
         w.spawn('eatt subscribe', 0, 'eatt_request', w.ecp.subscribe(lambda v: None, prefer_notify=False))]),
     'eatt_indicate': (False, prep_eatt_subscribed, lambda w: [
         w.spawn('eatt indicate', 1, 'indicate', w.devices[1].gatt_server.indicate_subscribers(w.ch, b'abc'))]),
+    'paired_read': (False, prep_paired, lambda w: [w.spawn('read', 0, 'gatt_request', w.cp.read_value())]),
     'smp_pair': (False, prep_pair, lambda w: [w.spawn('pair', 0, 'pair', w.conns[0].pair())]),
     'smp_pair_prompt': (False, prep_pair_prompt, lambda w: [w.spawn('pair', 0, 'pair', w.conns[0].pair())]),
     'coc_connect': (False, prep_coc_server, lambda w: [
@@ -651,6 +690,10 @@ PROCEDURES = {
         w.spawn('rfcomm start', 0, 'rfcomm_connect', _rfcomm_start(w))]),
     'rfcomm_open': (True, prep_rfcomm_mux, lambda w: [
         w.spawn('rfcomm open', 0, 'rfcomm_open', w.mux.open_dlc(w.rf_channel))]),
+    'avdtp_connect': (True, prep_avdtp_listener, lambda w: [
+        w.spawn('avdtp connect', 0, 'l2cap_connect', _avdtp_connect(w))]),
+    'avdtp_discover': (True, prep_avdtp, lambda w: [
+        w.spawn('avdtp discover', 0, 'avdtp_request', w.avdtp.discover_remote_endpoints())]),
     'classic_name': (True, prep_none, lambda w: [
         w.spawn('remote name', 0, 'hci_event', w.conns[0].request_remote_name())]),
     'classic_disconnect': (True, prep_none, lambda w: [
@@ -721,6 +764,10 @@ async def _run_case(proc, cut, k, inline=False):
     try:
         await w.setup()
         await prepare(w)
+        if aux:
+            # after the procedure's own preparation: the second link's entries are the newer
+            # ones in every table (the entries a procedure creates at its start are newer still)
+            await prep_aux(w)
         await w.settle()
     except Budget as e:
         res['setup_error'] = str(e)
@@ -905,6 +952,7 @@ MODEL_KIND = {
     'l2cap_disconnect': 'WConnBound HkL2cap',
     'l2cap_drain': 'WConnBound HkL2cap',
     'sdp_request': 'WConnBound HkBearerClose',
+    'avdtp_request': 'WConnBound HkBearerClose',
     'rfcomm_connect': 'WConnBound HkBearerClose',
     'rfcomm_open': 'WConnBound HkBearerClose',
     'hci_event': 'WLate HkConnListeners',
